@@ -113,6 +113,9 @@ func (a *AddressDecMap) Decode(r stdio.Reader) (err error) {
 	if err := perunio.Decode(r, &mapLen); err != nil {
 		return errors.WithMessage(err, "decoding map length")
 	}
+	if mapLen < 0 || mapLen > maxAddressMapLen {
+		return errors.Errorf("invalid address map length: %d", mapLen)
+	}
 	*a = make(map[wallet.BackendID]Address, mapLen)
 	for i := range mapLen {
 		var idx int32
@@ -128,12 +131,22 @@ func (a *AddressDecMap) Decode(r stdio.Reader) (err error) {
 	return nil
 }
 
-// Decode decodes the array length first, then all AddressDecMaps in the array.
+// maxAddressMapArrayLen is the maximum length of an encoded array of address
+// maps. It equals the maximum number of channel participants.
+const maxAddressMapArrayLen = 1024
+
+// maxAddressMapLen is the maximum number of entries (backends) of an encoded
+// address map.
+const maxAddressMapLen = 256
+
 // Decode decodes the array length first, then all AddressDecMaps in the array.
 func (a *AddressMapArray) Decode(r stdio.Reader) (err error) {
 	var mapLen int32
 	if err := perunio.Decode(r, &mapLen); err != nil {
 		return errors.WithMessage(err, "decoding array length")
+	}
+	if mapLen < 0 || mapLen > maxAddressMapArrayLen {
+		return errors.Errorf("invalid address map array length: %d", mapLen)
 	}
 	*a = make([]map[wallet.BackendID]Address, mapLen)
 	for i := range mapLen {
